@@ -165,6 +165,7 @@ func (st *State) assume(t Term) {
 // ------------------------------------------------------------------------------------------------
 
 type Exec struct {
+	entryParams map[string]Value // symbolic parameters of the function under verification (replay.go)
 	spawnBinds map[string]Value // captured variables of the closure being spawned, by name
 	spawning bool  // applying the contract of a function started with `go`
 	hookRecv Value // receiver of the interface call whose `at` hooks are being evaluated
